@@ -72,7 +72,118 @@ CLAIMED = {
         note=TB + " handlers enter the theorems as arbitrary scripts over the messaging primitives; per-handler path coverage is by generated requests."),
 }
 
+CLAIMED.update({
+    "C03": dict(
+        text=("Theorems (Coq, arbitrary native traces and call nesting): stepi executes exactly one instruction of the focused thread or reports the exit "
+              "(C03_stepi_partial, _exit, _never_panics); step-in stops at the first instruction of a different line or of a callee with line info "
+              "(C03_step_in); step-out/finish stops right behind the call in the caller's frame at any recursion depth (C03_finish, _complete: CFA-keyed, "
+              "so recursion cannot stop it early); next never stops inside a callee (C03_next, C03_next_not_in_callee). Refuted with witnesses and kept as "
+              "known findings: self-jumping instruction under stepi, user breakpoint inside a callee skipped by next. Tie: step/next/finish/stepi "
+              "histories on generated programs (loops, recursion, generics, closures) against the harness's own single-step trace; verdicts in Coq."),
+        ref="DESIGN.md section 5 C03 and section 11",
+        technique="Coq proof (step algorithms as functions over an arbitrary native trace with frames; induction on the trace) + end-to-end differential correspondence against an independent ptrace single-stepper, evaluated by vm_compute",
+        note=TB + " line table and CFA enter as functions of the trace position (validated per program by the leg); inlined-range handling is modelled only as far as the generated programs exercise it."),
+    "C04": dict(
+        text=("Theorems (Coq, any sorted line program / unit set): the place found for a pc is the last row at or below it inside its sequence "
+              "(C04_pc_row_exact, C04_binary_search), exact-place lookup never panics, the unit and function found for a pc are the ones whose ranges contain "
+              "it (C04_function_sound, _in_unit), line breakpoints return one statement row per (function, line) key, all of them and nothing else "
+              "(C04_line_places_sound/_complete/_one_per_key), function breakpoints land behind the prologue inside the function (C04_fn_bp_inside). Stated "
+              "refutations (split ranges, no row at low_pc) carry witnesses. Tie: the real index on the DWARF of generated programs against the harness's own "
+              "gimli line-program reading, decided in Coq."),
+        ref="DESIGN.md section 5 C04 and section 11",
+        technique="Coq proof (sortedness invariants, binary search correctness by induction) + differential correspondence of the real line/function index against an independent DWARF reading, evaluated by vm_compute",
+        note=TB + " gimli's decoding of .debug_line/.debug_info is trusted as the common source of rows for both sides."),
+    "C06": dict(
+        text=("Theorems (Coq, any memory image): integer decoding round-trips at every width and signedness; Vec / VecDeque rendering returns exactly the "
+              "len elements in logical order for any head/cap wrap (C06_vec_exact_partial, C06_vecdeque_exact_partial, _no_panic, _total); hashbrown iteration "
+              "yields exactly the full buckets, each once, for any control-byte array (C06_hashbrown_exact, _each_once; group match proved equal to the SSE "
+              "movemask); B-tree walk returns the keys in order for any well-formed tree (C06_btree_exact); enum variant selection follows the DWARF "
+              "discriminant rules incl. signed tags and ranges (C06_enum_select_exact, _decode_exact). Refutations (len above capacity guards, 128-bit tags, "
+              "cyclic parents) stated with witnesses; the reachable ones are known findings. Tie: real variable rendering of generated values (std "
+              "collections of many shapes and sizes) against the program's own Debug output and raw memory, decided in Coq."),
+        ref="DESIGN.md section 5 C06 and section 11",
+        technique="Coq proof (container walks as functions over a byte memory; induction over buckets/nodes/ring positions) + differential correspondence (unit on synthetic memory images, end-to-end on generated programs) evaluated by vm_compute",
+        note=TB + " the std layout facts (field names/offsets from DWARF) are inputs of the model; only the collections named here are modelled."),
+    "C07": dict(
+        text=("Theorems (Coq, all expression trees / all inputs): printing a well-formed DQE and parsing it back returns the same tree (C07_parse_print_wf, "
+              "print injective), integer literals denote their value at any sign/base within range, slices/indices/field/deref evaluate to exactly the "
+              "spec's selection over an abstract value tree (C07_eval_is_spec_eval, C07_slice_elements, C07_index_of_slice, map index some/none, wrong-kind "
+              "operations yield nothing). Refutations (Display of some literals does not re-parse, slice keeps container address) are recorded findings. "
+              "Tie: the real chumsky parser and Display on generated expressions and a malformed stream; real evaluation on a debuggee with nested data; all "
+              "decided in Coq."),
+        ref="DESIGN.md section 5 C07 and section 11",
+        technique="Coq proof (structural induction on the expression grammar; printer/parser round trip) + differential correspondence against the real parser, printer and evaluator, evaluated by vm_compute",
+        note=TB + " the Coq parser is a hand model of the chumsky grammar (tied by differential runs on ~thousands of generated and malformed inputs per run)."),
+    "C08": dict(
+        text=("Theorems (Coq, all input strings): numeric command arguments and integer literals are accepted iff in range and never panic "
+              "(C08_num_arg_in_range/_out_of_range/_no_panic, C08_int_literal_rejects_iff), the expression parser and evaluator have no reachable panic site "
+              "(C08_parse_no_panic, C08_eval_no_panic, C08_slice_no_panic with clamping); the panics of the code before the repairs are kept as witnesses. Tie: "
+              "the real console command parser and evaluator on generated and boundary inputs under catch_unwind, compared in Coq."),
+        ref="DESIGN.md section 5 C08 and section 11",
+        technique="Coq proof (totality with explicit Panic values in the model: theorems state that no input reaches one) + differential correspondence under catch_unwind, evaluated by vm_compute",
+        note=TB + " only the command grammar parts listed in DESIGN.md are modelled (numeric arguments, DQE, slices); TUI input handling is not."),
+    "C10": dict(
+        text=("Theorems (Coq, every tracer state, kernel state and schedule of the kernel model): the continue phase hands the dequeued signal to its thread "
+              "exactly once and nothing else (C10_continue_partial, C10_continue_nothing_else); a quiet signal seen inside single_step is queued, taken back and "
+              "delivered once by the step (C10_quiet_in_step_general; the pre-repair double delivery is kept as a refutation of the old flag value, which the "
+              "translator reads from the source together with the QUIET / TRANSPARENT lists). Refuted and recorded: two signals pending for one thread at one "
+              "resume. Tie: handler-counting debuggees, seeded kill()/stepi/continue histories; the same history is run through the Coq tracer model and "
+              "compared with counters and reported stops; spec evaluated on the same case."),
+        ref="DESIGN.md section 5 C10 and section 11",
+        technique="Coq proof (tracer as a transition function over an abstract ptrace kernel; invariants over all schedules) + translator (signal lists, dequeue flag) + end-to-end differential correspondence evaluated by vm_compute",
+        note=TB + " the kernel model (signal-delivery-stop, PTRACE_INTERRUPT, injection rules) is hand-written from ptrace(2) and validated only through the legs."),
+    "C11": dict(
+        text=("Theorems (Coq, any native trace and command history of the patch machine): drop of a launched debuggee leaves no process in every "
+              "execution status (C11_drop_partial, C11_drop_never_started), detach restores the image (with C02), restart keeps the user breakpoints so that "
+              "the stops after a restart are the native projection again (C11_restart_keeps...). Refuted and recorded: detach() of a launched program then quit "
+              "leaves it behind. Tie: the full grid launched/attached x single/multi-threaded x stop kind x ending, a stress tail under CPU load, restart "
+              "histories on generated programs; the world is inspected from outside (/proc, own ptrace attach, ELF comparison, native exit status)."),
+        ref="DESIGN.md section 5 C11 and section 11",
+        technique="Coq proof (patch machine + process life-cycle state machine) + end-to-end inspection of the real world state after every ending; restart stops decided in Coq by vm_compute",
+        note=TB + " process life cycle (kill/wait/detach effects) is an abstract state machine validated by the e2e leg only."),
+    "C13": dict(
+        text=("Theorems (Coq, any sequence of setBreakpoints / setFunctionBreakpoints / setInstructionBreakpoints requests): after each request the "
+              "debugger's breakpoints for that source are exactly the requested ones, earlier ones removed (C13_replace), conditions / hit conditions / log "
+              "messages are recorded per breakpoint and evaluated as specified (C13_options, C13_hitcondition, invalid iff unparsable), verified flags and ids "
+              "are truthful (C13_verified_source/_function/_instruction_partial). Refuted and recorded: two sources sharing one location, instruction "
+              "breakpoints reported verified before the process runs, bare identifiers. Tie: real DAP sessions with seeded request sequences; responses and the "
+              "debugger's own breakpoint table compared in Coq with the model."),
+        ref="DESIGN.md section 5 C13 and section 11",
+        technique="Coq proof (breakpoint-record state machine, induction over request sequences) + end-to-end differential correspondence through an in-memory DAP client, evaluated by vm_compute",
+        note=TB + " address resolution of a source line enters as a function (covered by C04)."),
+    "C16": dict(
+        text=("Theorems (Coq, any register file / memory / callee behaviour as a function): an injected call passes the arguments in the System V registers, "
+              "runs with rsp below the red zone and 16-byte aligned (C16_redzone_kept, C16_aligned, C16_call_rsp), restores all registers and the patched "
+              "text on success and on every error path (C16_restore_regs_text, C16_error_restores), frees the mmap'ed page (C16_error_no_leak), reports a "
+              "signal raised inside the callee (C16_signal_reported); the Debug-formatter cache is sound while the binary is unchanged (C16_cache_partial). "
+              "Stated refutations: FP state, dealloc error leak, stale cache. Tie: real injected calls on generated functions (argument counts, kinds, "
+              "callee that clobbers registers / raises signals), registers and stack compared before/after through ptrace, decided in Coq."),
+        ref="DESIGN.md section 5 C16 and section 11",
+        technique="Coq proof (call-injection sequence as a state transformer over registers/memory) + end-to-end differential correspondence evaluated by vm_compute",
+        note=TB + " the callee is an arbitrary function of the machine state in the theorems; x87/SSE state is outside the model except for the stated refutation."),
+    "C18": dict(
+        text=("Theorems (Coq, any mapping table): global<->relocated address conversion is exact for PIE and non-PIE images and every shared object "
+              "(C18_relocate_exact/_sound, C18_roundtrip_partial), the region found for an address is the unique mapping containing it "
+              "(C18_find_range_exact, _total, _unique), library load events re-read the mappings and activate deferred breakpoints exactly once "
+              "(C18_deferred, C18_deferred_once, C18_run_events_rounds). Tie: real debuggees (PIE, non-PIE, static, dlopen at run time) - the debugger's "
+              "mapping dump and breakpoint addresses against /proc/<pid>/maps and ELF program headers, decided in Coq."),
+        ref="DESIGN.md section 5 C18 and section 11",
+        technique="Coq proof (mapping table invariants; address arithmetic in Z with explicit wrap) + end-to-end differential correspondence against /proc/<pid>/maps, evaluated by vm_compute",
+        note=TB + " the dynamic linker's behaviour (r_debug protocol) is an event list input of the model."),
+    "C19": dict(
+        text=("Theorems (Coq, any DIE tree): the variables offered at a pc are exactly those of the lexical blocks containing it, innermost first "
+              "(C19_visit_desc, C19_local_variables_desc, C19_scope_partial), shadowing resolves to the innermost declaration already in scope "
+              "(C19_shadow_partial, C19_lookup_exact_partial), parameters are exact (C19_params_exact), location lists select the entry whose half-open range "
+              "contains the pc (C19_loclist_exact, C19_loc_select_exact). One stated refutation with witness (C19_scope_refuted). Tie: generated programs with "
+              "nested blocks and shadowing; the real local-variable listing at every statement line against the harness's own DWARF walk and the program's "
+              "printed values, decided in Coq."),
+        ref="DESIGN.md section 5 C19 and section 11",
+        technique="Coq proof (structural induction over the DIE tree; range containment) + end-to-end differential correspondence against an independent DWARF walk, evaluated by vm_compute",
+        note=TB + " compiler-emitted scopes/loclists are taken as given (both sides read the same DWARF); optimised code is exercised only at opt-level 0/1."),
+})
+
 NOT_YET = {
+    "C09": "not claimed yet: model (Model/Tracer.v) and theorems (Properties/C09.v: C09_all_stop, C09_all_stop_runs, C09_arrival_swallowed_refuted) are built and checked, but the tie to the real tracer for multi-threaded schedules (trace-replay leg) is still under construction; claiming it without the tie would not meet the brief",
     "C20": "not applicable: the property is agreement with the tokio runtime's internal structures (tokio 1.40-1.44); no tokio source, crate or binary exists in this sealed sandbox, so no executable model can be tied to anything real (DESIGN.md section 5 C20)",
 }
 
